@@ -29,7 +29,7 @@ ALN = 'xdoctest.utils.util_str.add_line_numbers'
 
 
 def run(ctx):
-    for fn in (r1_numbering, r2_lines_once, r2b_want_text_unmodified, r3_formatting_is_read_only, r4_file_relative_start, r5_explicit_options_win, r6_continuation_prompt_pairing):
+    for fn in (r1_numbering, r2_lines_once, r2b_want_text_unmodified, r3_formatting_is_read_only, r4_file_relative_start, r5_explicit_options_win, r6_continuation_prompt_pairing, r7_formatting_options_are_forwarded):
         ctx.rep.rule(fn, ctx)
 
 
@@ -441,6 +441,32 @@ def r6_continuation_prompt_pairing(ctx):
                             'inside a triple-quoted string no longer parse'), anchor=f.qualname)
 
 
+def r7_formatting_options_are_forwarded(ctx):
+    """CONFIG-FLOW: format_src -> format_parts -> format_part hand the formatting options on by name.  An option of the caller that the callee
+    also has and that is not passed falls back to the callee's default: `format_src(want=False)` would show the wants, `prefix=False` the prompts"""
+    rep = ctx.rep
+    chain = [('xdoctest.doctest_example.DocTest.format_src', 'xdoctest.doctest_example.DocTest.format_parts'),
+             ('xdoctest.doctest_example.DocTest.format_parts', 'xdoctest.doctest_part.DoctestPart.format_part')]
+    n = 0
+    for (qa, qb) in chain:
+        fa_, fb = ctx.func(qa), ctx.func(qb)
+        pa = [a.arg for a in fa_.node.args.args[1:] + fa_.node.args.kwonlyargs]
+        pb = [a.arg for a in fb.node.args.args[1:] + fb.node.args.kwonlyargs]
+        calls = [c for c in walk_scope(fa_.node) if isinstance(c, ast.Call) and isinstance(c.func, ast.Attribute) and c.func.attr == fb.name]
+        need(calls, 'C18.R7: %s does not call %s' % (fa_.name, fb.name))
+        locals_ = {x.id for x in walk_scope(fa_.node) if isinstance(x, ast.Name) and isinstance(x.ctx, ast.Store)}
+        for c in calls:
+            passed = {k.arg for k in c.keywords if k.arg} | set(pb[:len(c.args)])
+            for opt in pb:
+                if opt in pa or opt in locals_:
+                    n += 1
+                    ok = opt in passed
+                    rep.ob('C18.R7', ctx.loc(fa_, c), '%s -> %s(%s=...)' % (fa_.name, fb.name, opt), ok,
+                           'handed on' if ok else
+                           'the option `%s` of %s is not handed on to %s: the callee falls back to its own default, whatever the caller asked for' % (opt, fa_.name, fb.name), anchor=qa)
+    rep.floor('C18.R7', 'formatting options shared along the chain', n, 6)
+
+
 # ---------------------------------------------------------------------------
 from ..selftest import fire, silent      # noqa: E402
 
@@ -448,6 +474,7 @@ DE = 'xdoctest/doctest_example.py'
 DP = 'xdoctest/doctest_part.py'
 US = 'xdoctest/utils/util_str.py'
 VARIANTS = [
+    fire('prefix-option-not-forwarded', 'C18.R7', (DE, "                                         n_digits=n_digits, prefix=prefix,\n", "                                         n_digits=n_digits,\n")),
     fire('triple-quote-completion-switched-off', 'C18.R6', ('xdoctest/parser.py', "HACK_TRIPLE_QUOTE_FIX = True", "HACK_TRIPLE_QUOTE_FIX = False")),
     fire('triple-quote-line-still-rejected', 'C18.R6', ('xdoctest/parser.py', "                        suffix = norm_line\n                        error = False\n", "                        suffix = norm_line\n")),
     fire('explicit-numbering-mode-overridden-by-config', 'C18.R5', (DE, "        offset_linenos = self.config.getvalue('offset_linenos', offset_linenos)\n", "        offset_linenos = offset_linenos or self.config['offset_linenos']\n")),
